@@ -21,6 +21,14 @@ def _block(kind: str, depth: int) -> list[str]:
         return ["```", "code", "", "more", "```"]
     if kind == "Q":
         return [f"> {_tok()} {_tok()}"]
+    if kind == "QH":
+        return [f"> {_tok()}", ">", f"> ## {_tok()}"]
+    if kind == "QR":
+        return [f"> {_tok()}", ">", "> ---"]
+    if kind == "H":
+        return [f"## {_tok()} {_tok()}"]
+    if kind == "R":
+        return ["* * *"]
     if kind == "L" and depth < 2:
         return [f"- {_tok()} {_tok()}", f"- {_tok()}"]
     if kind == "L1" and depth < 2:
@@ -53,7 +61,7 @@ def mk_list(items: list[list[str]], marker: str, loose: bool, depth: int = 0) ->
     return out
 
 
-ITEM_PATTERNS = [["P"], ["P", "P"], ["P", "C"], ["P", "Q"], ["P", "L"], ["P", "L1"]]
+ITEM_PATTERNS = [["P"], ["P", "P"], ["P", "C"], ["P", "Q"], ["P", "L"], ["P", "L1"], ["P", "QH"], ["P", "QR"], ["P", "H"], ["P", "R"], ["Q"], ["C"]]
 
 
 def list_docs(tier: str) -> Iterator[dict[str, Any]]:
@@ -106,6 +114,11 @@ HEADINGS = [
     ("bold-para", "**qaa qab**\n\n# qac\n", False),
     ("bold-closing-hashes", "# **qaa** #\n\nqab\n", True),
     ("empty-bold", "# ****\n\nqaa\n", False),
+    ("bolditalic-part", "# ***qaa** qab qac*\n\nqad\n", False),
+    ("bolditalic-part2", "# *qaa **qab***\n\nqad\n", False),
+    ("italic-bold-full", "# _**qaa qab**_\n\nqad\n", True),
+    ("bold-then-italic", "# **qaa** *qab*\n\nqad\n", False),
+    ("bold-strike", "# **~~qaa~~**\n\nqad\n", True),
     ("typo-heading", "# \"qaa\" qab...\n\nqac\n", False),
     ("typo-setext", "\"qaa\" qab's qac...\n===\n\nqad\n", False),
 ]
